@@ -603,11 +603,11 @@ func specEEHex(c byte) bool {
 //@ define segend(p) = mathint(p + 6 + le32(p+2))
 //@ define pfbCase(w, opt) = w == obs() && old(opt != nil && opt.Format == FormatPFB)
 //@ func (*Font).Write
-//@ before "buf.Reset()" 1 lemma [C08.pfb.seg1] pfbCase(w, opt) && opos() - old(opos()) < 4294967296 ==> seghdr(old(opos()), 1) && opos() == segend(old(opos()))
-//@ before "n = uint32(buf.Len())" 1 lemma [C08.pfb.seg1.kept] pfbCase(w, opt) && opos() - old(opos()) < 4294967296 ==> opos() == segend(old(opos()))
-//@ before "buf.Reset()" 2 lemma [C08.pfb.seg2] pfbCase(w, opt) && opos() - old(opos()) < 4294967296 ==> seghdr(segend(old(opos())), 2) && opos() == segend(segend(old(opos())))
-//@ before "n = uint32(buf.Len())" 2 lemma [C08.pfb.seg2.kept] pfbCase(w, opt) && opos() - old(opos()) < 4294967296 ==> opos() == segend(segend(old(opos())))
-//@ before "_, err = w.Write(..." 7 lemma [C08.pfb.seg3] pfbCase(w, opt) && opos() - old(opos()) < 4294967296 ==> seghdr(segend(segend(old(opos()))), 1) && opos() == segend(segend(segend(old(opos()))))
+//@ before "call Reset" 1 lemma [C08.pfb.seg1] pfbCase(w, opt) && opos() - old(opos()) < 4294967296 ==> seghdr(old(opos()), 1) && opos() == segend(old(opos()))
+//@ before "call Write" 3 lemma [C08.pfb.seg1.kept] pfbCase(w, opt) && opos() - old(opos()) < 4294967296 ==> opos() == segend(old(opos()))
+//@ before "call Reset" 2 lemma [C08.pfb.seg2] pfbCase(w, opt) && opos() - old(opos()) < 4294967296 ==> seghdr(segend(old(opos())), 2) && opos() == segend(segend(old(opos())))
+//@ before "call Write" 5 lemma [C08.pfb.seg2.kept] pfbCase(w, opt) && opos() - old(opos()) < 4294967296 ==> opos() == segend(segend(old(opos())))
+//@ before "call Write" 7 lemma [C08.pfb.seg3] pfbCase(w, opt) && opos() - old(opos()) < 4294967296 ==> seghdr(segend(segend(old(opos()))), 1) && opos() == segend(segend(segend(old(opos()))))
 //@ ensures [C08.pfb.framing] pfbCase(w, opt) && result == nil && opos() - old(opos()) < 4294967296 ==> seghdr(old(opos()), 1) && seghdr(segend(old(opos())), 2) && seghdr(segend(segend(old(opos()))), 1) && seghdr(segend(segend(segend(old(opos())))), 3) && opos() == mathint(segend(segend(segend(old(opos())))) + 2)
 
 // C06, subroutine calls and seac.  callsubr pops the subroutine number; number
